@@ -1,0 +1,18 @@
+//go:build verif
+
+package keeper
+
+import (
+	sdk "github.com/cosmos/cosmos-sdk/types"
+)
+
+// VerifPositionProcessed, when set by a verification harness, is called by the begin-block sweep and by
+// MsgClosePositions before the first and after every position they process ("where" names the call site).
+// Only compiled with the build tag "verif".
+var VerifPositionProcessed func(ctx sdk.Context, where string, owner string, id uint64)
+
+func verifPositionProcessed(ctx sdk.Context, where string, owner string, id uint64) {
+	if VerifPositionProcessed != nil {
+		VerifPositionProcessed(ctx, where, owner, id)
+	}
+}
